@@ -336,7 +336,7 @@ func cancelNote(k kcase) string {
 func cases(thorough bool) []kcase {
 	maxLen := 2
 	if thorough {
-		maxLen = 3
+		maxLen = 4
 	}
 	var l []kcase
 	var rec func(cur []int)
@@ -349,6 +349,9 @@ func cases(thorough bool) []kcase {
 		}
 		for _, cn := range cancels {
 			for hooks := 0; hooks < 16; hooks++ {
+				if len(cur) == 4 && hooks != 0 && hooks != 5 && hooks != 10 && hooks != 15 {
+					continue // lists of four handlers: no hooks, the legacy pair, the context pair, all four
+				}
 				if hooks == 0 || hooks == 15 {
 					l = append(l, kcase{H: append([]int{}, cur...), Cancel: cn, Hooks: hooks, Obs: true, Otel: true})
 				}
